@@ -30,7 +30,8 @@ from harness.props import c01
 LEVEL = "proof"
 THEOREMS = ["C18_single_init", "C18_exactly_one_init", "C18_pointer_stable", "C18_existing_never_reinitialised", "C18_existing_versions",
             "C18_race_leaves_one_table", "C18_race_then_pointer_loss", "C18_same_table_published", "C18_same_table_partial",
-            "C18_same_table_full_refuted", "C18_skeleton_regenerated"]
+            "C18_same_table_full_refuted", "C18_skeleton_regenerated",
+            "C18_schema_persisted_and_used", "C18_no_schema_append_raises", "C18_schema_of_race"]
 REQ = ["DS.Model.Commit", "DS.Model.Create"]
 MANIFEST_ENTRY = {
     "level_text": "C18 theorems proved in Coq for every interleaving of any number of creators/openers (single initialisation, "
@@ -483,31 +484,77 @@ def explore(ctx, backend: str, init: str, kinds: List[str], max_preempt: int, li
                         queue.append(dev + ((i, b),))
 
 
-def sequential_schema_checks(ctx) -> None:
-    """Schema persisted and used by schema-less appends; no schema anywhere -> append raises and writes nothing."""
+SCHEMA_ARGS: List[Optional[Tuple[int, List[Dict[str, Any]]]]] = [
+    None, (5, []), (0, []), (0, FIELDS), (3, FIELDS), (1, FIELDS_B),
+]
+
+
+def schema_cases(ctx) -> Tuple[List[str], List[Dict[str, Any]]]:
+    """Oracle + correspondence of the schema kernels (Gen/GenCreateSchema.v through Model/CreateSchema.v): for every schema
+    argument -- none, one without fields, ids 0 / non-0, one / two fields -- the v0 metadata a creation writes carries the
+    (schemas, current_schema_id) of v0_schemas; a schema-less append through a fresh handle uses table_schema, or raises and
+    writes nothing when there is none."""
     import datashard
     from datashard.data_structures import Schema
-    root = os.path.join(ctx.scratch, "c18-seq")
-    shutil.rmtree(root, ignore_errors=True)
-    t = datashard.create_table(root, Schema(schema_id=3, fields=FIELDS))
-    t2 = datashard.load_table(root)
-    t2.append_records([{"x": 5}])
-    if sorted(r["x"] for r in datashard.load_table(root).scan()) != [5]:
-        ctx.violation("schema-not-persisted", "schema given at creation is not used by a schema-less append", {"case": "persist"})
-    root2 = os.path.join(ctx.scratch, "c18-seq2")
-    shutil.rmtree(root2, ignore_errors=True)
-    t3 = datashard.create_table(root2)
-    before = sorted(os.listdir(os.path.join(root2, "data"))) + sorted(os.listdir(os.path.join(root2, "metadata")))
+    exprs, impls = [], []
+    for k, arg in enumerate(SCHEMA_ARGS):
+        root = os.path.join(ctx.scratch, f"c18-schema-{k}")
+        shutil.rmtree(root, ignore_errors=True)
+        datashard.create_table(root, None if arg is None else Schema(schema_id=arg[0], fields=[dict(f) for f in arg[1]]))
+        meta = P.read_table_independent(root)["meta"]
+        impl: Dict[str, Any] = {"schemas": [(sc["schema_id"], len(sc["fields"])) for sc in meta["schemas"]], "current": meta["current_schema_id"]}
+
+        def listing() -> List[str]:
+            out = []
+            for d, _ds, fs in os.walk(root):
+                out += [os.path.relpath(os.path.join(d, f), root) for f in fs if not f.endswith(".lock")]
+            return sorted(out)
+        before = listing()
+        row = {"x": 5}
+        try:
+            datashard.load_table(root).append_records([row])
+            impl["append"] = "ok"
+            got = datashard.load_table(root).scan()
+            want_cols = [f["name"] for f in arg[1]] if arg else []
+            if [sorted(r.keys()) for r in got] != [sorted(want_cols)] or got[0].get("x") != 5:
+                ctx.violation("schema-not-persisted", f"create_table(schema={arg}) then a schema-less append: the row read back is {got}, "
+                              f"not one row over the columns {want_cols} of the schema given at creation", {"schema_arg": k})
+        except ValueError as e:
+            impl["append"] = "raises" if "No schema available" in str(e) else "raises-other: " + str(e)[:80]
+            after = listing()
+            if after != before:
+                ctx.violation("no-schema-append-wrote", f"create_table(schema={arg}): the rejected schema-less append left files behind: "
+                              f"{sorted(set(after) - set(before))}", {"schema_arg": k})
+        usable = arg is not None and len(arg[1]) > 0
+        if usable and impl["append"] != "ok":
+            ctx.violation("schema-not-used", f"create_table(schema={arg}) then a schema-less append: {impl['append']}", {"schema_arg": k})
+        if not usable and impl["append"] == "ok":
+            ctx.violation("no-schema-append-accepted", f"create_table(schema={arg}): an append without any available schema did not raise",
+                          {"schema_arg": k})
+        if usable and (arg[0], len(arg[1])) not in impl["schemas"]:
+            ctx.violation("schema-not-persisted", f"create_table(schema={arg}): the v0 metadata carries the schemas {impl['schemas']}", {"schema_arg": k})
+        ctx.count(1, ("schema", k))
+        if arg is None:
+            term = "None"
+        else:
+            fs = "; ".join(f"{{| fid := {f['id']}%Z; fname := {f['id']}%Z; ftype := {'T_long' if f['type'] == 'long' else 'T_string'}; fspell := 0%Z; freq := false |}}"
+                           for f in arg[1])
+            term = f"(Some {{| sid := {arg[0]}%Z; sfields := [{fs}]; sstring := 0%Z |}})"
+        exprs.append(f"(map (fun s => (sid s, Z.of_nat (List.length (sfields s)))) (fst (v0_schemas {term})), snd (v0_schemas {term}), "
+                     f"match table_schema {term} with Some s => (1, sid s) | None => (0, 0) end)")
+        impls.append({"arg": arg and [arg[0], len(arg[1])], **impl})
+    return exprs, impls
+
+
+def schema_replay(ctx, k: int) -> int:
+    before = len(ctx.violations) if hasattr(ctx, "violations") else 0
+    saved = SCHEMA_ARGS[:]
     try:
-        t3.append_records([{"x": 1}])
-        ctx.violation("no-schema-append-accepted", "append without any available schema did not raise", {"case": "noschema"})
-    except ValueError:
-        pass
-    after = sorted(os.listdir(os.path.join(root2, "data"))) + sorted(os.listdir(os.path.join(root2, "metadata")))
-    infl = os.path.join(root2, "metadata", "inflight")
-    if before != after or (os.path.isdir(infl) and os.listdir(infl)):
-        ctx.violation("no-schema-append-wrote", f"rejected schema-less append left files behind: {set(after) - set(before)}", {"case": "noschema"})
-    ctx.count(2)
+        SCHEMA_ARGS[:] = [saved[k]]
+        schema_cases(ctx)
+    finally:
+        SCHEMA_ARGS[:] = saved
+    return before
 
 
 def run(ctx) -> None:
@@ -515,10 +562,23 @@ def run(ctx) -> None:
                 "granularity x initial state {absent, healthy, pointer lost, v0 only + pointer lost} x {local flock, CAS-S3 with a "
                 "grant-everyone lock}; bounded-preemption enumeration + random; distinct = executed schedule")
     ctx.trusted_base += ["harness/lib/sched.py, mems3.py; harness/props/c18.py projection of storage calls onto creation events"]
-    ctx.proofs(THEOREMS, gen_files=["GenCommit.v"])
+    ctx.proofs(THEOREMS, gen_files=["GenCommit.v", "GenCreateSchema.v"])
     ctx.allow_axioms([])
     quick = ctx.tier == "quick"
-    sequential_schema_checks(ctx)
+    s_exprs, s_impls = schema_cases(ctx)
+    try:
+        s_vals = coqbuild.coq_eval(["DS.Gen.GenSchema", "DS.Model.Schema", "DS.Model.CreateSchema"], s_exprs)
+    except RuntimeError as e:
+        ctx.proof_problems.append("model evaluation (schema kernels) failed: " + str(e)[:800])
+        s_vals = []
+    s_bad = []
+    for impl, val in zip(s_impls, s_vals):
+        schemas, cur, (has, sid_) = val
+        model = {"schemas": [tuple(x) for x in schemas], "current": cur, "append": "ok" if has == 1 else "raises"}
+        got = {"schemas": [tuple(x) for x in impl["schemas"]], "current": impl["current"], "append": impl["append"]}
+        if model != got or (has == 1 and sid_ != impl["arg"][0]):
+            s_bad.append({"schema_arg": impl["arg"], "model": model, "impl": got})
+    ctx.correspondence("create-schema", len(s_vals), s_bad)
     plans = []
     for backend in ("local", "s3cas"):
         for init in ("absent", "healthy", "pointer_lost", "v0_pointer_lost"):
@@ -629,6 +689,16 @@ def run(ctx) -> None:
 
 def replay(ctx, payload) -> int:
     c = payload.get("case", {})
+    if "schema_arg" in c:
+        seen: List[str] = []
+        real_violation = ctx.violation
+        ctx.violation = lambda key, what, payload=None: seen.append(what)      # type: ignore[assignment]
+        try:
+            schema_replay(ctx, int(c["schema_arg"]))
+        finally:
+            ctx.violation = real_violation                                      # type: ignore[assignment]
+        print("replay:", "STILL FAILS: " + seen[0] if seen else "passes now")
+        return 1 if seen else 0
     if "kinds" not in c:
         print("replay: no concrete case")
         return 2
